@@ -28,19 +28,23 @@ type World struct {
 	Pkgs   map[string]*packages.Package // key: path relative to module ("" = root)
 	All    []*packages.Package          // module packages, sorted
 
-	allRoots     []*packages.Package
-	cg           *callgraph.Graph
-	reach        map[*ssa.Function]bool
-	pm           *parserModel
-	callSites    map[*ssa.Function][]ssa.CallInstruction
-	lexModel     *lexSSAModel
-	memo         map[string]interface{}
-	memoMu       sync.Mutex
-	callMdl      *callModel
-	nonNegFields map[*types.Var]int
-	prog         *ssa.Program
-	ssaPkgs      map[string]*ssa.Package
-	parents      map[ast.Node]ast.Node
+	allRoots       []*packages.Package
+	cg             *callgraph.Graph
+	reach          map[*ssa.Function]bool
+	pm             *parserModel
+	callSites      map[*ssa.Function][]ssa.CallInstruction
+	lexModel       *lexSSAModel
+	memo           map[string]interface{}
+	postMemo       map[string]interface{}
+	predSubst      sync.Map // parameter of a single-site predicate function -> the argument of that call
+	globalInit     map[*ssa.Global]*ssa.Store
+	globalInitDone map[*ssa.Global]bool
+	memoMu         sync.Mutex
+	callMdl        *callModel
+	nonNegFields   map[*types.Var]int
+	prog           *ssa.Program
+	ssaPkgs        map[string]*ssa.Package
+	parents        map[ast.Node]ast.Node
 }
 
 type LoadOpts struct {
